@@ -2,6 +2,7 @@
 import numpy as np
 
 from nssverif import use_repo, rng as rngmod, tables
+from nssverif.bufs import Reuse
 from nssverif.f64 import bits
 from nssverif.pipeline import make_config
 
@@ -74,7 +75,12 @@ def c04_events(version, n, seed):
                 u = np.sort(u)
         es += [e] * len(u); bs += [b] * len(u); us += list(u); grp += [gi] * len(u)
     es, bs, us = np.array(es), np.array(bs), np.array(us)
-    z = grid_cdf_sampler(taus.tau_cdf_grid)(es, bs, us)
+    buf0 = Reuse()
+    sampler = grid_cdf_sampler(taus.tau_cdf_grid)
+    hz = len(es) // 2
+    z = np.concatenate([sampler(buf0("e", es[:hz]), buf0("b", bs[:hz]), buf0("u", us[:hz])),
+                        sampler(buf0("e", es[hz:2 * hz]), buf0("b", bs[hz:2 * hz]), buf0("u", us[hz:2 * hz])),
+                        sampler(es[2 * hz:].copy(), bs[2 * hz:].copy(), us[2 * hz:].copy())])
     for i in range(len(z)):
         events.append({"kind": "z", "e": bits(es[i]), "b": bits(bs[i]), "u": bits(us[i]), "z": bits(z[i]), "grp": int(grp[i]),
                        "_m": {"ver": version, "e": es[i], "b": bs[i], "u": us[i], "z": float(z[i])}})
@@ -88,7 +94,11 @@ def c04_events(version, n, seed):
     pb[0], pb[1], pb[2], pb[3] = 0.0, B[0], B[-1], np.pi / 2
     pe[4], pe[5] = 6.0, 12.0
     pu = rng.uniform(1e-6, 1 - 1e-6, m)
-    Et = taus.tau_energy(pb.copy(), pe.copy(), pu.copy())
+    buf = Reuse()
+    half = m // 2
+    Et = np.concatenate([taus.tau_energy(buf("b", pb[:half]), buf("e", pe[:half]), buf("u", pu[:half])),
+                         taus.tau_energy(buf("b", pb[half:2 * half]), buf("e", pe[half:2 * half]), buf("u", pu[half:2 * half])),
+                         taus.tau_energy(pb[2 * half:].copy(), pe[2 * half:].copy(), pu[2 * half:].copy())])
     for i in range(m):
         events.append({"kind": "etau", "e": bits(pe[i]), "b": bits(pb[i]), "u": bits(pu[i]), "E": bits(Et[i]),
                        "_m": {"ver": version, "e": pe[i], "b": pb[i], "u": pu[i], "E": float(Et[i])}})
@@ -229,8 +239,9 @@ def c05_events(version, n, seed, all_nodes=True):
     # several calls on ONE object with different batch compositions: values must not depend on the history
     order = rng.permutation(len(es))
     p = np.empty(len(es))
-    for chunk in np.array_split(order, 7):
-        p[chunk] = taus.tau_exit_prob(bs[chunk].copy(), es[chunk].copy())
+    buf = Reuse()       # chunks of equal length are passed in the SAME array objects, refilled (argument identity must not matter)
+    for chunk in np.array_split(order, 12):
+        p[chunk] = taus.tau_exit_prob(buf("b", bs[chunk]), buf("e", es[chunk]))
     p2 = taus.tau_exit_prob(bs.copy(), es.copy())
     events = []
     for i in range(len(es)):
@@ -321,8 +332,9 @@ def c07_events(version, n, seed):
         # monotonicity pairs
         u2 = np.clip(uu * rng.uniform(1.0, 3.0, k), 0, 1.0)
         b3 = np.clip(bb + rng.uniform(0, 0.2, k), 0, np.radians(42.0))
-        alt2, L2 = eas.altDec(bb.copy(), tb.copy(), tg.copy(), u2.copy())
-        alt3, L3 = eas.altDec(b3.copy(), tb.copy(), tg.copy(), uu.copy())
+        buf = Reuse()
+        alt2, L2 = eas.altDec(buf("b", bb), buf("tb", tb), buf("tg", tg), buf("u", u2))
+        alt3, L3 = eas.altDec(buf("b", b3), buf("tb", tb), buf("tg", tg), buf("u", uu))
         for i in range(k):
             events.append({"kind": "decpair", "beta": bits(bb[i]), "u1": bits(uu[i]), "L1": bits(L[i]), "alt1": bits(alt[i]),
                            "u2": bits(u2[i]), "L2": bits(L2[i]), "alt2": bits(alt2[i]), "beta3": bits(b3[i]), "alt3": bits(alt3[i]),
